@@ -1,13 +1,3 @@
-//! vh-registers: C06 — register replicas converge and accept only authorised writes.
-mod c06;
-
 fn main() {
-    let cfg = vh_core::RunCfg::from_args();
-    match cfg.prop.as_str() {
-        "C06" => c06::run(cfg),
-        other => {
-            eprintln!("vh-registers: unknown property {other}");
-            std::process::exit(2);
-        }
-    }
+    vh_registers::main_entry()
 }
